@@ -49,7 +49,7 @@ def gen_values(rnd, n, thorough):
         out.append((TMS, datetime.time(h, mi, s, rnd.choice([0, 1000, 999000, 999999, 1, 500, rnd.randint(0, 999999)]))))
         out.append((TUS, datetime.time(h, mi, s, rnd.choice([0, 1, 999999, rnd.randint(0, 999999)]))))
     # aware datetimes with offsets, before and after the epoch
-    offs = [0, 1, -1, 60, -300, 330, 345, 765, -720, 840, 1439, -1439]
+    offs = [0, 0, 0, 1, -1, 60, -300, 330, 345, 765, -720, 840, 1439, -1439]
     for _ in range(n // 5):
         kind = rnd.choice(["timestamp-millis", "timestamp-micros"])
         y = rnd.choice([2, 3, 1000, 1899, 1969, 1969, 1970, 1970, 1971, 2000, 2038, 2262, 9998, rnd.randint(2, 9998)])
@@ -147,6 +147,24 @@ def run_c16(ctx, fa):
     n = 1500 if ctx.quick() else 20000
     vals = gen_values(rnd, n, not ctx.quick())
     cases = [logical_case(fa, "l%d" % i, s, v) for i, (s, v) in enumerate(vals)]
+    # aware datetimes mean the same instant whatever the zone of the process: the same kind of cases once more with the process in a zone
+    # three hours off UTC (naive values are left out there: their meaning is the local zone's)
+    import os
+    import time
+    aware = [(s_, v) for s_, v in gen_values(ctx.sub_rnd("c16tz"), n // 2, False)
+             if isinstance(v, datetime.datetime) and v.tzinfo is not None]
+    old_tz = os.environ.get("TZ")
+    try:
+        os.environ["TZ"] = "XST-3"
+        time.tzset()
+        cases += [logical_case(fa, "z%d" % i, s_, v) for i, (s_, v) in enumerate(aware)]
+    finally:
+        if old_tz is None:
+            os.environ.pop("TZ", None)
+        else:
+            os.environ["TZ"] = old_tz
+        time.tzset()
+    ctx.extra["aware_datetimes_under_non_utc_process_zone"] = len(aware)
     ctx.rule = ("boundary-heavy logical values: first/last day of months across years 1..9999; times of day with ms/us edges; aware datetimes with "
                 "offsets -23:59..+23:59(+30s) before and after the epoch; naive datetimes for the local variants (and for timestamp types with TZ=UTC in "
                 "1971..2100); UUIDs; decimals for bytes and fixed (sizes 1..17, precision up to the size's maximum, all scales) incl. -0, zero, all-9 digits, "
